@@ -1,5 +1,5 @@
 SPECIFICATION Spec
-CONSTANTS MaxLen = 5
+CONSTANTS MaxLen = 4
 Alphabet <- PAlpha5
 Precs <- PrecsDesign
 Fault = "short"
